@@ -7,11 +7,12 @@ import Driver.OpsPipeline
 import Driver.OpsReport
 import Driver.OpsFiles
 import Driver.OpsRunner
+import Driver.OpsStats
 /-! Line-protocol driver: one operation per input line, one result per output line.
     Unknown or malformed operations print `bad-op` (never a default value). -/
 open Driver
 
-def handlers : List (List String → Option String) := [opsReport, opsFiles, opsRunner, opsQual, opsAlign, opsIndex, opsKmer, opsParser]
+def handlers : List (List String → Option String) := [opsReport, opsStats, opsFiles, opsRunner, opsQual, opsAlign, opsIndex, opsKmer, opsParser]
 
 def step (line : String) : String :=
   if line.startsWith "pipeline " then opPipeline (line.drop 9).toString else
